@@ -107,6 +107,13 @@ def gen_string(rng, dialect, width):
         # long text with words that end in a dash (ODL-family encoders wrap it)
         words = [w() + ("-" if rng.random() < 0.3 else "") for _ in range(14)]
         return Leaf(" ".join(words), "str:long-with-dash-words")
+    if r < 0.85:
+        # long text whose words would mean something at the start of a line
+        hz = ["#5", "#", "# note", "/*", "*/", "END", "End", "END_GROUP", "=", "x=1",
+              "GROUP = g", "-", "--", "(", ")", "{", "}", ";", "&", "flat-field",
+              "<m>", ","]
+        words = [rng.choice(hz) if rng.random() < 0.4 else w() for _ in range(16)]
+        return Leaf(w() + " " + " ".join(words), "str:long-with-line-start-hazard-words")
     if r < 0.88:
         n = rng.choice((width // 2 - 1, width // 2 + 1, width - 8, width + 5,
                         2 * width))
@@ -122,8 +129,14 @@ def gen_string(rng, dialect, width):
         return Leaf(rng.choice(["caf\xe9", "\xb5m", "\xa0x", "a\xadb", "\xff"]),
                     "str:latin1")
     if r < 0.94:
-        bad = rng.choice(["Δv", "€", "\x85x"]) if non_ascii else \
-            rng.choice(["caf\xe9", "\xb5m", "Δv"])
+        if non_ascii and rng.random() < 0.6:
+            # every code the PVL character set excludes, one at a time
+            o = rng.choice(list(range(0, 9)) + list(range(14, 32))
+                           + list(range(127, 160)))
+            bad = rng.choice(["a%sb", "%s", "x y%s"]) % chr(o)
+        else:
+            bad = rng.choice(["Δv", "€", "\x85x"]) if non_ascii else \
+                rng.choice(["caf\xe9", "\xb5m", "Δv"])
         return Leaf(bad, "str:outside-charset", rep=False)
     if r < 0.96 and dialect in ("ODL", "PDS3"):
         return Leaf(rng.choice(["a\x01b", "\x7f", "a\x1bb"]), "str:ascii-control")
